@@ -484,6 +484,7 @@ class OpGraph:
         assert len(node1.eids[direction]) == 1, 'to-be merged upstream node can only have one input edge'
         assert len(node2.eids[direction]) == 1, 'to-be merged upstream node can only have one input edge'
         assert node1.qnum == node2.qnum, f'can only merge nodes with same quantum numbers, encountered {node1.qnum} and {node2.qnum}'
+        assert not (node1.nid in self.nid_terminal and node2.eids[1-direction]), 'a terminal node cannot acquire upstream edges'
         # make former edges from node2 to point to node1
         for eid in node2.eids[1-direction]:
             self.edges[eid].nids[direction] = node1.nid
@@ -535,10 +536,14 @@ class OpGraph:
                     # can only merge nodes with same quantum numbers
                     if node1.qnum != node2.qnum:
                         continue
-                    # actually merge the edges (never absorbing a terminal node,
-                    # possible if the other node is not connected to that terminal)
+                    # a terminal node is never absorbed, and can only absorb a node without further upstream edges
+                    # (both are possible if the other node is not connected to that terminal)
                     if node2.nid in self.nid_terminal:
                         eid1, eid2 = eid2, eid1
+                        node1, node2 = node2, node1
+                    if node1.nid in self.nid_terminal and node2.eids[1-direction]:
+                        continue
+                    # actually merge the edges
                     self.merge_edges(eid1, eid2, direction)
                     return True
             # collect node IDs at next bond site
